@@ -1910,6 +1910,7 @@ func (d *decoderBincBytes) kSlice(f *decFnInfo, rv reflect.Value) {
 	var rv9 reflect.Value
 
 	rvlen := rvLenSlice(rv)
+	rvlen0 := rvlen
 	rvcap := rvCapSlice(rv)
 	maxInitLen := d.maxInitLen()
 	hasLen := containerLenS >= 0
@@ -2003,7 +2004,8 @@ func (d *decoderBincBytes) kSlice(f *decFnInfo, rv reflect.Value) {
 		}
 
 		rv9 = rvArrayIndex(rv, j, f.ti, true)
-		if elemReset {
+		if elemReset || j >= rvlen0 {
+
 			rvSetZero(rv9)
 		}
 		if d.d.TryNil() {
@@ -6011,6 +6013,7 @@ func (d *decoderBincIO) kSlice(f *decFnInfo, rv reflect.Value) {
 	var rv9 reflect.Value
 
 	rvlen := rvLenSlice(rv)
+	rvlen0 := rvlen
 	rvcap := rvCapSlice(rv)
 	maxInitLen := d.maxInitLen()
 	hasLen := containerLenS >= 0
@@ -6104,7 +6107,8 @@ func (d *decoderBincIO) kSlice(f *decFnInfo, rv reflect.Value) {
 		}
 
 		rv9 = rvArrayIndex(rv, j, f.ti, true)
-		if elemReset {
+		if elemReset || j >= rvlen0 {
+
 			rvSetZero(rv9)
 		}
 		if d.d.TryNil() {
